@@ -443,13 +443,18 @@ def run(tier):
         # Spec => [](AtomicTable /\ Linearizable) for the build-then-publish model (Proof_LazyPublish.tla)
         nobl = common.run_tlapm(specdir, 'Proof_LazyPublish')
         nobl2 = common.run_tlapm(specdir, 'Proof_SharedScratch')
+        nobl3 = common.run_tlapm(specdir, 'Proof_CacheEvict')
         rep.setcov('machine_checked_proofs', [
             dict(tool='tlapm', module='Proof_LazyPublish', theorem='Safe', obligations_proved=nobl,
                  meaning='LazyPublish with PublishFirst = FALSE: AtomicTable and Linearizable hold in every reachable state for any number '
                          'of threads and any table size (inductive invariant IndInv)'),
             dict(tool='tlapm', module='Proof_SharedScratch', theorem='Safe', obligations_proved=nobl2,
                  meaning='SharedScratch with Locked = TRUE: Linearizable (every call returns the factor of its own row and age) in every '
-                         'reachable state for any number of threads, rows and ages (mutual exclusion + scratch ownership invariant)')])
+                         'reachable state for any number of threads, rows and ages (mutual exclusion + scratch ownership invariant)'),
+            dict(tool='tlapm', module='Proof_CacheEvict', theorem='Safe', obligations_proved=nobl3,
+                 meaning='CacheEvict with Locked = TRUE: NoError (the reversed-dict iterator never sees a changed size and is never '
+                         'exhausted) and the cache within its limit in every reachable state, for any number of threads, any limit >= 1 '
+                         'and any initial contents within the limit (mutual exclusion + at most one pop per call)')])
         phases['models'] = round(_t.time() - t0, 1)
         # (b) real code under the scheduler
         S = scenarios(quick)
